@@ -52,7 +52,9 @@ def _strategy():
         "also_rx": st.sampled_from([False, False, True]),
         "persistent": st.booleans(),
         # the application keeps ONE lamp dict and ONE trouble-code list and updates them in place before every cycle
-        "in_place": st.sampled_from([False, False, True]),
+        # ("deep": the trouble-code DICTS are the application's own too - a running fault's occurrence count etc. is updated inside
+        # them, with lamps and number of codes unchanged from cycle to cycle)
+        "in_place": st.sampled_from([False, False, True, "deep"]),
         # the first receiver's Dm1 object has one more subscriber, registered first, that unsubscribes itself at its first call
         "oneshot_first": st.sampled_from([False, False, True]),
         "sa": st.sampled_from([0x28, 0x28, 0x00, 0x01, 0xCA, 0xFD]),
@@ -70,7 +72,7 @@ class C16:
             "625 lamp combinations, DM22 request bytes for boundary SPNs x all 32 FMI x both request kinds; end-to-end cases are "
             "drawn by Hypothesis: layer, 1-4 cycles each with a lamp dict (any subset of pl/awl/rsl/mil, states 0..4) and 1..400 "
             "trouble codes (classes 1 / 2-3 / 14-16 / 100 / 400), cycle time above ('long', every cycle must arrive) or below "
-            "('short', every received value must have been supplied, no more often than supplied) the transfer duration, 1-2 subscribers, in one case of three the sending Dm1 object also subscribes while a foreign node sends DM1 in between and the application hands out one persistent lamp dict, a data callback that takes 0 / 5 / 30 ms, then "
+            "('short', every received value must have been supplied, no more often than supplied) the transfer duration, 1-2 subscribers, in one case of three the sending Dm1 object also subscribes while a foreign node sends DM1 in between and the application hands out one persistent lamp dict, in one case of four the application keeps one lamp dict and one code list and refills them before every cycle and in one of four it also keeps the code dicts and only updates their fields, a data callback that takes 0 / 5 / 30 ms, then "
             "stop_send - from the application between cycles, from inside the data callback, or from the application while the "
             "data callback is running - and three further cycle times of silence; non-trivial (e2e) = at least one multi-frame DM1 was received; "
             "every codec block is non-trivial; distinct = distinct blocks / parameter sets")
@@ -214,7 +216,18 @@ class C16:
                 idx[0] += 1
                 lamps = keep if (p.get("also_rx") and p.get("persistent")) else dict(c["lamps"])
                 dtcs = dtcs_for(c["seed"], c["n"])
-                if p.get("in_place") and not (p.get("also_rx") and p.get("persistent")):
+                if p.get("in_place") == "deep" and not (p.get("also_rx") and p.get("persistent")):
+                    c0 = p["cycles"][0]
+                    dtcs = dtcs_for(c["seed"], c0["n"])
+                    if not own_dtcs:
+                        own_lamps.update(c0["lamps"])
+                        own_dtcs[:] = [dict(d) for d in dtcs]
+                    else:
+                        for mine, d in zip(own_dtcs, dtcs):
+                            mine.clear()
+                            mine.update(d)
+                    lamps, dtcs = own_lamps, own_dtcs
+                elif p.get("in_place") and not (p.get("also_rx") and p.get("persistent")):
                     own_lamps.clear()
                     own_lamps.update(c["lamps"])
                     own_dtcs[:] = dtcs
